@@ -27,13 +27,28 @@ RULE = ('(type, value) pairs from vlib.hailgen (as C32; top-level value non-miss
         'Oracle (a): _from_encoding(_to_encoding(v)) == v, all bytes consumed, result typechecks. Oracle (b): an '
         'independent decoder driven by the EType descriptor obtained by interpreting the parsed body of '
         'EType.fromPythonTypeEncoding (EType.scala) consumes exactly Python\'s bytes and yields v. Non-trivial: value '
-        'has >=1 missing field/element AND >=1 nested container; distinct by canonical (type, value) descriptor.')
+        'has >=1 missing field/element AND >=1 nested container; distinct by canonical (type, value) descriptor. '
+        'SEQUENCES (seq shards): ONE type-object tree built from a generated type (bare primitives wrapped in a container) serves '
+        '2-7 steps: enc = encode a well-formed value (through HailType._to_encoding or through ir.EncodedLiteral(t, v).encoded_value, '
+        'as hl.literal does), bad = encode an ill-formed variant of a well-formed value - a struct without its last field, a '
+        'tuple that is one short, an int32/int64/float32 out of range, a wrong Python type - placed at a generated position '
+        'counted from the END of the value so that the encoder has written a prefix before it raises (classes '
+        'seq_encode_raised_after_partial_write, seq_bad_<how>), dec = decode the reference bytes of an earlier value again; a '
+        'step may address a SUB-type object of the shared tree (element / field / key / value type) instead of the root. Every '
+        'sequence ends with a well-formed encode on the type object of the last failing encode. Oracle: every successful encode '
+        'equals the bytes a FRESH type object produces (signature seq:encode-differs-after-<previous step>), then passes the '
+        'whole single-value oracle (a) + (b) with the SHARED type object; every decode gives the value. Non-trivial sequence: a '
+        'well-formed encode follows an encode that raised after writing >= 1 byte, on the same type object.')
 ASSUMPTIONS = [
     'top-level value is non-missing (the engine asserts this; hl.literal sends missing as NA IR)',
     'a Hail str is a UTF-8 sequence; float32 values are float32-representable; call alleles <= 1000 (limits are C34)',
     'layout semantics of each EType constructor are a trusted transcription of the Scala sources (the generated '
     'decoders are not executed); default `required` of every EType constructor is false',
     'booleans are encoded as the bytes 0/1 (the engine reads byte != 0)',
+    'sequences: a type object outlives one literal and callers may retry after an encoder error (hl.literal checks a value one '
+    'level deep, so ill-formed values do reach _to_encoding); an ill-formed value that the encoder happens to accept is outside '
+    'the property and is not judged (class seq_bad_value_did_not_raise); how many bytes the encoder had written when it raised '
+    'is measured, for the class label only, with the encoder\'s own ByteWriter on a fresh type object',
 ]
 TRUSTED = ['reference decoder + Scala-subset parser/interpreter in checks/c33.py', 'vlib/hailgen.py builder and canon()',
            'vlib/hailenv.py']
@@ -670,12 +685,13 @@ def _frame(exc):
     return best or '?'
 
 
-def oracle(td, vd):
+def oracle(td, vd, t=None):
+    """`t` = the type object to use (default: a fresh one built from the descriptor)."""
     if vd is None:
         return None           # no top-level missing in the wire form
     hailenv.init()
     from hail.utils.byte_reader import ByteReader
-    t = hailgen.build_type(td)
+    t = hailgen.build_type(td) if t is None else t
     v = hailgen.build_value(td, vd)
     try:
         enc = t._to_encoding(v)
@@ -748,6 +764,8 @@ def diagnose(td, vd, orc):
 
 
 def check_case(case, orc=None):
+    if case.get('seq'):
+        return check_seq(case)
     orc = orc or oracle
     td, vd = case['t'], case['v']
     t = hailgen.build_type(td)
@@ -761,6 +779,312 @@ def check_case(case, orc=None):
         sig, phase, msg = diagnose(td, vd, orc)
         fails.append((sig, CLAUSES.get(phase, phase), msg))
     return nontrivial, classes, fails
+
+
+# ---------------------------------------------------------------------------------------------------------------
+# 5. sequences of encodes / decodes that share type objects
+# ---------------------------------------------------------------------------------------------------------------
+# A HailType object lives as long as the expression / table that carries it and is used for every literal of that type
+# (hl.literal(v, t) -> EncodedLiteral(t, v) -> t._to_encoding(v) when the IR is rendered).  hl.literal checks a value
+# one level deep only, so an ill-formed value (struct without one of its fields inside an array, wrong Python type or
+# out-of-range int deep inside) reaches the encoder and makes it raise PART-WAY; the caller catches the error, fixes
+# the value and encodes again with the same type object.  Property: what an encode/decode returns does not depend on
+# what the type objects involved were used for before.
+
+def _subtype(t, td, path):
+    """Follow `path` (child indices) from the type object / descriptor to a sub-type OBJECT of the same tree."""
+    for i in path:
+        k = hailgen.kind(td)
+        if k in ('array', 'set'):
+            t, td = t.element_type, td[1]
+        elif k == 'interval':
+            t, td = t.point_type, td[1]
+        elif k == 'dict':
+            t, td = (t.key_type, td[1]) if i % 2 == 0 else (t.value_type, td[2])
+        elif k == 'tuple' and td[1]:
+            j = i % len(td[1])
+            t, td = t.types[j], td[1][j]
+        elif k == 'struct' and td[1]:
+            j = i % len(td[1])
+            t, td = t.types[j], td[1][j][1]
+        else:
+            break
+    return t, td
+
+
+def subtype_desc(td, path):
+    for i in path:
+        k = hailgen.kind(td)
+        if k in ('array', 'set', 'interval'):
+            td = td[1]
+        elif k == 'dict':
+            td = td[1] if i % 2 == 0 else td[2]
+        elif k == 'tuple' and td[1]:
+            td = td[1][i % len(td[1])]
+        elif k == 'struct' and td[1]:
+            td = td[1][i % len(td[1])][1]
+        else:
+            break
+    return td
+
+
+def _corrupt_here(td, v, how):
+    """An ill-formed stand-in for the well-formed `v` of type `td` -> (value, how applied) ; (v, None) = not possible here."""
+    k = hailgen.kind(td)
+    if how == 'drop-field' and k == 'struct' and td[1]:
+        names = [n for n, _ in td[1]]
+        return {n: v[n] for n in names[:-1]}, 'drop-field'
+    if how == 'short' and k == 'tuple' and td[1]:
+        return tuple(v)[:-1], 'short'
+    if how == 'out-of-range' and k in ('int32', 'int64', 'float32'):
+        return {'int32': 2 ** 31 + 5, 'int64': 2 ** 63 + 5, 'float32': 1e300}[k], 'out-of-range'
+    if k == 'bool':
+        return v, None
+    if k == 'str':
+        return 7, 'wrong-type'
+    if k in ('int32', 'int64', 'float32', 'float64', 'call', 'locus', 'ndarray'):
+        return 'x', 'wrong-type'
+    return 5, 'wrong-type'
+
+
+def _sites(td, v, path, out):
+    """every non-missing position of the built value that can be reached through plain containers: (path, td, value)"""
+    if v is None:
+        return
+    out.append((path, td, v))
+    k = hailgen.kind(td)
+    if k == 'array':
+        for i, x in enumerate(v):
+            _sites(td[1], x, path + (i,), out)
+    elif k == 'tuple':
+        for i, x in enumerate(v):
+            _sites(td[1][i], x, path + (i,), out)
+    elif k == 'struct':
+        for n, x in td[1]:
+            _sites(x, v[n], path + (n,), out)
+    elif k == 'dict':
+        for kk, x in v.items():
+            _sites(td[2], x, path + (kk,), out)
+
+
+def _replace(td, v, path, new):
+    """copy of v (plain list / tuple / dict along the path) with the value at `path` replaced"""
+    if not path:
+        return new
+    k = hailgen.kind(td)
+    key = path[0]
+    if k in ('array', 'tuple'):
+        out = list(v)
+        out[key] = _replace(td[1] if k == 'array' else td[1][key], v[key], path[1:], new)
+        return out if k == 'array' else tuple(out)
+    if k == 'struct':
+        out = {n: v[n] for n, _ in td[1]}
+        out[key] = _replace(dict((n, x) for n, x in td[1])[key], v[key], path[1:], new)
+        return out
+    out = dict(v)
+    out[key] = _replace(td[2], v[key], path[1:], new)
+    return out
+
+
+def corrupt(td, v, picks, how):
+    """Replace one position of the well-formed built value `v` by an ill-formed stand-in: among the positions where `how` applies
+    (else: where a wrong Python type can be put), counted from the LAST one in encoding order (so that the encoder has already
+    written something when it meets it), the picks[0]-th.  -> (value, how applied or None)."""
+    sites = []
+    _sites(td, v, (), sites)
+    native = [s for s in sites if _corrupt_here(s[1], s[2], how)[1] == how]
+    cands = native or [s for s in sites if _corrupt_here(s[1], s[2], 'wrong-type')[1] is not None]
+    if not cands:
+        return v, None
+    path, std, sv = cands[-1 - ((picks[0] if picks else 0) % len(cands))]
+    new, applied = _corrupt_here(std, sv, how)
+    return _replace(td, v, path, new), applied
+
+
+def _bytes_before_raise(td, bad):
+    """How many bytes has the encoder produced when it gives up on `bad`?  (class label only; measured on a fresh type object
+    with the encoder's own writer)"""
+    try:
+        from hail.utils.byte_reader import ByteWriter
+        buf = bytearray()
+        try:
+            hailgen.build_type(td)._convert_to_encoding(ByteWriter(buf), bad)
+        except Exception:
+            return len(buf)
+        return None
+    except Exception:
+        return None
+
+
+def _encode(t, v, via):
+    if via == 'ir':
+        import base64
+        import hail as hl
+        return base64.b64decode(hl.ir.EncodedLiteral(t, v).encoded_value)
+    return t._to_encoding(v)
+
+
+SEQ_CLAUSE = ('what an encode / decode returns is the reference encoding / the value, independent of what the same type objects were '
+              'used for before (earlier encodes, encodes that raised part-way, decodes)')
+
+
+def check_seq(case):
+    """case = {'seq': True, 't': td, 'steps': [...]}; ONE type object tree built from td serves every step."""
+    hailenv.init()
+    td = case['t']
+    root = hailgen.build_type(td)
+    cls = set()
+    fails = []
+    encs = []                  # (sub td, sub type object, want canon, reference bytes) of the successful encodes
+    prev = None                # what the previous step did: 'encode' | 'failed-encode' | 'decode'
+    partial_fail_pending = False
+    nontrivial = False
+    for si, step in enumerate(case['steps']):
+        op = step['op']
+        path = step.get('path', [])
+        t, std = _subtype(root, td, path)
+        if path and t is not root:
+            cls.add('seq_uses_subtype_object_of_shared_tree')
+        via = step.get('via', 'type')
+        if via == 'ir':
+            cls.add('seq_via_EncodedLiteral')
+        if op == 'dec':
+            if not encs:
+                continue
+            dtd, dt, want, ref = encs[step['k'] % len(encs)]
+            cls.add('seq_decode_again')
+            try:
+                back = dt._from_encoding(ref)
+                ok = hailgen.canon(dt, back) == want
+                detail = f'decoded to {back!r}'
+            except Exception as e:
+                ok, detail = False, f'raised {e!r}'
+            if not ok:
+                try:
+                    fresh_ok = hailgen.canon(dt, hailgen.build_type(dtd)._from_encoding(ref)) == want
+                except Exception:
+                    fresh_ok = False
+            if not ok and fresh_ok:      # (a decode that a fresh type object gets wrong too was reported by the encode step)
+                fails.append((f'seq:decode-differs-after-{prev}', SEQ_CLAUSE,
+                              f'step {si + 1}: decoding the reference bytes {ref.hex()} of an earlier value again with the same type '
+                              f'object ({dt}) {detail}; previous step: {prev}'))
+            prev = 'decode'
+            continue
+        vd = step['v']
+        if vd is None:
+            continue
+        v = hailgen.build_value(std, vd)
+        if op == 'bad':
+            bad, applied = corrupt(std, v, step.get('picks', []), step.get('how', 'wrong-type'))
+            if applied is None:
+                cls.add('seq_bad_value_not_constructible')
+                continue
+            cls.add(f'seq_bad_{applied}')
+            try:
+                _encode(t, bad, via)
+                cls.add('seq_bad_value_did_not_raise')       # not well typed, accepted anyway: outside the property, not judged
+                prev = 'encode'
+            except Exception:
+                n = _bytes_before_raise(std, bad)
+                cls.add('seq_encode_raised')
+                if n:
+                    cls.add('seq_encode_raised_after_partial_write')
+                    partial_fail_pending = True
+                prev = 'failed-encode'
+            continue
+        # a well-formed value
+        hailgen.typechecks(hailgen.build_type(std), v)
+        want = hailgen.canon(t, v)
+        fresh_t = hailgen.build_type(std)
+        try:
+            ref = fresh_t._to_encoding(v)
+        except Exception:
+            ref = None
+        if ref is None:
+            # the single-value property already fails for this value on a fresh type object: report it as such
+            if oracle(std, vd):
+                sig, phase, msg = diagnose(std, vd, oracle)
+                fails.append((sig, CLAUSES.get(phase, phase), msg))
+            prev = 'failed-encode'
+            continue
+        if si > 0:
+            cls.add('seq_later_encode')
+        if prev == 'failed-encode':
+            cls.add('seq_encode_after_failed_encode')
+        if partial_fail_pending:
+            cls.add('seq_encode_after_partial_write_failure')
+            nontrivial = True
+        try:
+            got = _encode(t, v, via)
+        except Exception as e:
+            fails.append((f'seq:encode-raises-after-{prev}', SEQ_CLAUSE,
+                          f'step {si + 1}: encoding {v!r} with the shared type object {t} raised {e!r}; a fresh type object '
+                          f'encodes it to {ref.hex()}; previous step: {prev}'))
+            prev = 'failed-encode'
+            continue
+        if got != ref:
+            fails.append((f'seq:encode-differs-after-{prev}', SEQ_CLAUSE,
+                          f'step {si + 1}: encoding {v!r} with the shared type object {t} gives {bytes(got).hex()}, a fresh type '
+                          f'object gives {ref.hex()}; previous step: {prev} (steps so far: '
+                          f'{[s["op"] for s in case["steps"][:si + 1]]})'))
+        else:
+            f = oracle(std, vd, t)
+            if f:
+                if oracle(std, vd) is None:
+                    fails.append((f'seq:{f["phase"]}-differs-after-{prev}', SEQ_CLAUSE,
+                                  f'step {si + 1}: with the shared type object {t}: {f["msg"]}; with a fresh type object the value '
+                                  f'round-trips; previous step: {prev}'))
+                else:
+                    sig, phase, msg = diagnose(std, vd, oracle)
+                    fails.append((sig, CLAUSES.get(phase, phase), msg))
+        encs.append((std, t, want, ref))
+        partial_fail_pending = False
+        prev = 'encode'
+    cls.add(f'seq_top_{hailgen.kind(td)}')
+    dedup = {}
+    for f in fails:
+        dedup.setdefault(f[0], f)
+    return nontrivial, sorted(cls), list(dedup.values())
+
+
+def seq_cases(max_leaves):
+    from hypothesis import strategies as st
+    tds = hailgen.type_descs(max_leaves)
+    picks = st.lists(st.sampled_from([0, 0, 0, 0, 1, 1, 2, 3, 5, 8]), min_size=1, max_size=1)
+    how = st.sampled_from(['drop-field', 'drop-field', 'wrong-type', 'wrong-type', 'out-of-range', 'short'])
+    via = st.sampled_from(['type', 'type', 'ir'])
+
+    @st.composite
+    def build(draw):
+        td = draw(tds)
+        if not isinstance(td, list) or hailgen.kind(td) in ('locus', 'ndarray'):
+            # a bare primitive has nothing before its only write: put it inside a container (both members of a dict, ...)
+            td = draw(st.sampled_from([['array', td], ['tuple', ['int32', td]], ['struct', [['a', 'str'], ['b', td]]],
+                                       ['dict', 'str', td]]))
+        steps = []
+        n_enc = 0
+        for _ in range(draw(st.integers(1, 5))):
+            r = draw(st.integers(0, 9))
+            path = draw(st.lists(st.integers(0, 3), min_size=1, max_size=2)) if draw(st.integers(0, 5)) == 0 else []
+            std = subtype_desc(td, path)
+            if r < 3:
+                steps.append(dict(op='enc', path=path, via=draw(via), v=draw(hailgen.value_descs(std, allow_top_missing=False))))
+                n_enc += 1
+            elif r < 8:
+                steps.append(dict(op='bad', path=path, via=draw(via), v=draw(hailgen.value_descs(std, allow_top_missing=False)),
+                                  picks=draw(picks), how=draw(how)))
+            elif n_enc:
+                steps.append(dict(op='dec', k=draw(st.integers(0, 5))))
+        # the sequence ends with a well-formed value for the type object most recently used by a failing encode (or the root)
+        last_bad = [s for s in steps if s['op'] == 'bad']
+        path = last_bad[-1]['path'] if last_bad and draw(st.integers(0, 4)) else []
+        steps.append(dict(op='enc', path=path, via=draw(via),
+                          v=draw(hailgen.value_descs(subtype_desc(td, path), allow_top_missing=False))))
+        if draw(st.integers(0, 3)) == 0:
+            steps.append(dict(op='dec', k=draw(st.integers(0, 5))))
+        return dict(seq=True, t=td, steps=steps)
+    return build()
+
 
 
 def selftest_descriptor():
@@ -778,7 +1102,8 @@ def selftest_descriptor():
 def plan(tier):
     n = 16
     per = 1000 if tier == 'quick' else 20000
-    return [dict(kind='grid')] + [dict(kind='hyp', n=per, max_leaves=(4, 6, 8, 12)[i % 4]) for i in range(n - 1)]
+    return ([dict(kind='grid')] + [dict(kind='hyp', n=per, max_leaves=(4, 6, 8, 12)[i % 4]) for i in range(n - 1)]
+            + [dict(kind='seq', n=per // 2, max_leaves=(4, 6, 8)[i % 3]) for i in range(4)])
 
 
 def run_shard(spec, seed, tier):
@@ -797,6 +1122,9 @@ def run_shard(spec, seed, tier):
         res.notes['grid_cases'] = res.evaluations
         return res
     from vlib.hyp import search
+    if spec['kind'] == 'seq':
+        search(res, PROPERTY, seq_cases(spec['max_leaves']), check_case, spec['n'], seed, shrink=True)
+        return res
     search(res, PROPERTY, hailgen.cases(spec['max_leaves'], allow_top_missing=False), check_case, spec['n'], seed, shrink=True)
     return res
 
